@@ -120,6 +120,48 @@ pub mod instructions {
     }
 }
 
+/// Observation of the operand stack of the VM: for every instruction an activation of the
+/// evaluation loop is about to dispatch, the activation's id (unique per thread), the program
+/// counter and the height of the activation's operand stack.
+pub mod opstack {
+    use std::cell::{Cell, RefCell};
+
+    use crate::compiler::instructions::Instruction;
+
+    type Hook = Box<dyn FnMut(u64, u32, usize, &Instruction<'_>)>;
+
+    thread_local! {
+        static HOOK: RefCell<Option<Hook>> = const { RefCell::new(None) };
+        static NEXT_ACTIVATION: Cell<u64> = const { Cell::new(0) };
+    }
+
+    /// Installs (or removes) the per-thread callback.
+    pub fn set_hook(hook: Option<Hook>) -> Option<Hook> {
+        HOOK.with(|h| std::mem::replace(&mut *h.borrow_mut(), hook))
+    }
+
+    /// A new activation of the evaluation loop starts; returns its id.
+    #[inline]
+    pub(crate) fn enter() -> u64 {
+        NEXT_ACTIVATION.with(|n| {
+            let id = n.get();
+            n.set(id.wrapping_add(1));
+            id
+        })
+    }
+
+    #[inline]
+    pub(crate) fn on_instruction(activation: u64, pc: u32, height: usize, instr: &Instruction<'_>) {
+        HOOK.with(|h| {
+            if let Ok(mut h) = h.try_borrow_mut() {
+                if let Some(f) = h.as_mut() {
+                    f(activation, pc, height, instr);
+                }
+            }
+        });
+    }
+}
+
 /// Depth bookkeeping of instruction-stream evaluations.
 ///
 /// Every activation of the VM's evaluation loop records, at entry and at its
